@@ -141,7 +141,9 @@ def receive_data(sock: socket.socket, size: int) -> bytes:
                 except socket.error as x:
                     err = getattr(x, "errno", x.args[0])
                     if err not in ERRNO_RETRIES:
-                        raise ConnectionClosedError("receiving: connection lost: " + str(x))
+                        err = ConnectionClosedError("receiving: connection lost: " + str(x))
+                        err.partialData = data  # store the message that was received until now
+                        raise err
                     time.sleep(next(delays))  # a slight delay to wait before retrying
         # old fashioned recv loop, we gather chunks until the message is complete
         while True:
@@ -163,7 +165,9 @@ def receive_data(sock: socket.socket, size: int) -> bytes:
             except socket.error as x:
                 err = getattr(x, "errno", x.args[0])
                 if err not in ERRNO_RETRIES:
-                    raise ConnectionClosedError("receiving: connection lost: " + str(x))
+                    err = ConnectionClosedError("receiving: connection lost: " + str(x))
+                    err.partialData = data  # store the message that was received until now
+                    raise err
                 time.sleep(next(delays))  # a slight delay to wait before retrying
     except socket.timeout:
         raise TimeoutError("receiving: timeout")
